@@ -95,6 +95,15 @@ def cases(tier, seed, focus=None):
                              ([{"leaf": r2.randrange(16), "op": r2.choice(EDITS), "seed": r2.randrange(10**6)}]
                               if r2.random() < 0.3 else []) for _ in range(len(calls) - 1)]
             case["pre"] = r2.choice(["none", "none", "some", "all"])
+        if fn == "mtl" and i % 2 == 0:
+            # heads with two same-shaped parameters entering through one addition (autograd hands both the SAME gradient tensor),
+            # mostly without pre-existing .grad: the .grad fields are created by the call
+            prog["twin_bias"] = True
+            prog["empty_task"] = False
+            if r2.random() < 0.7:
+                case["pre"] = "none"
+            for c in calls:
+                c["mode"] = "all"
         yield case
     # NON-LEAF inputs that retain grad (accepted by the library: `is_leaf or retains_grad`), differentiated without vmap
     # (a single row, or parallel_chunk_size = 1): autograd's own retain_grad hook writes their .grad during the sweep
